@@ -62,6 +62,9 @@ class AbstractGradSampleModule(nn.Module, ABC):
         super().__init__()
 
         self._module = m
+        # a freshly constructed nn.Module is in training mode: follow the wrapped module instead,
+        # so that validation (which looks at the wrapper) sees an eval-mode model as such
+        self.training = m.training
         self.batch_first = batch_first
         self.loss_reduction = loss_reduction
         self.grad_accumulation_hook: Optional[RemovableHandle] = None
